@@ -60,10 +60,17 @@ class SSlice(Val):
     base: BaseStr
     lo: Any
     hi: Any
+    maxlen: Optional[int] = None     # static upper bound of the length when the slice came from constant bounds
 
     @property
     def length(self):
         return self.hi - self.lo
+
+
+@dataclass
+class SLower(Val):
+    """s.lower() of a scanned slice (ASCII assumption); only comparisons with constants are interpreted"""
+    s: SSlice
 
 
 @dataclass
